@@ -3,7 +3,7 @@
    (recognised or not), every child list, every id / JID / participant, every module selection,
    with and without the encryption layers, every iq registry.                                  *)
 From Coq Require Import Arith Lia.
-From YV Require Import C06.C06Base C06.C06Dispatch C06.C06Kinds Gen.C06Layers Gen.C06HandleMaps C06.C06Generic.
+From YV Require Import C06.C06Base C06.C06Dispatch C06.C06Kinds Gen.C06Layers Gen.C06HandleMaps C06.C06Generic C06.C06Reply.
 
 (* the designed exception: a picture notification that is neither a set nor a delete *)
 Definition picture_rejected (n : feat) : bool :=
@@ -275,3 +275,18 @@ Example notification_example :
   acks (stack_recv repaired (mkFlags true false true false) true [] n)
   = [SAck (Some "77") "notification" (Some "web") (Some "s.whatsapp.net") (Some "49@s.whatsapp.net")].
 Proof. repeat split; vm_compute; reflexivity. Qed.
+
+(* ---------------------------------------------------------------- a server ping is answered whatever is pending
+   The ping is a request (type get / set, never result / error), so no registry entry -- not even one registered
+   under the very id the ping carries -- has any say in what happens to it. *)
+Theorem ping_whatever_is_pending_thm : forall c ax st n, f_tag n = "iq" -> oeq (f_xmlns n) "urn:xmpp:ping" = true ->
+  oeq (f_type n) "result" = false -> oeq (f_type n) "error" = false ->
+  let a := stack_recv repaired c ax st n in
+  answers a = [SPong (f_id n) "s.whatsapp.net" "w:p"] /\ ups a = [] /\ raises a = 0.
+Proof.
+  intros c ax st n Ht Hx Hr He. cbv zeta.
+  rewrite (C06Reply.recv_history_independent_thm repaired c ax st n).
+  - apply ping_thm; [exact Ht|exact Hx| |rewrite Hr; reflexivity].
+    intros l. unfold reg_find. destruct (f_id n); reflexivity.
+  - unfold C06Reply.is_reply. rewrite Hr, He. cbn. apply Bool.andb_false_r.
+Qed.
